@@ -354,6 +354,14 @@ SHAPES = {
     "star-sub2": ("=q_,x=P:*/-^0,y=D:*/-^1/-,q_x=T:0:3,q_y=T:1:4,x=T:0:7,y=T:1:8", "2,1,0,3,3"),
     "sub-styles": ("-,x=D:,y=P:val,z=D:p_*/-^0/=p_^0,w=P:*/-,x=T:0:3,val=T:1:4,p_z=T:0:5,p_w=T:1:6,w=T:0:9,z=T:0:8",
                    "1,2,0,3,3"),
+    # a subclass RE-DECLARES an inherited deferring attribute under the same name with another prefix / style /
+    # kind: values AND notifications must follow the subclass's own declaration (its own __listener_traits__
+    # pattern, has_traits.py:553-556), not the base's; base and subclass instances share the target objects
+    "redeclare": ("-,x=D:,y=P:val,z=D:p_*/-^0,x=D:val,y=D:p_*,z=P:/=q_^0,x=P:*,z=D:other/-^1,x=P:p_*/"
+                  "-,x=T:0:3,val=T:1:4,p_z=T:0:5,p_y=T:1:6,z=T:0:8,q_x=T:0:9,other=T:1:2,y=T:0:1,p_x=T:1:7",
+                  "0,1,2,3,4,4"),
+    "redeclare2": ("=a_,x=D:*,y=P:*/=b_^0,y=D:a_*/-^0,x=D:b_*,y=P:/"
+                   "-,a_x=T:0:3,a_y=T:1:4,b_x=T:0:5,b_y=T:1:6,x=T:0:7,y=T:1:8", "0,1,2,3,3"),
     # malformed: target missing on the delegate's class; '*' without __prefix__; empty __prefix__
     "missing": ("-,x=D:nope,y=P:nope/-,x=T:0:3", "0,0,1"),
     "star-nopfx": ("-,x=D:*/-,x=T:0:3", "0,1"),
@@ -362,7 +370,7 @@ SHAPES = {
 MAIN_SHAPES = ["same-D", "same-P", "expl-D", "expl-P", "pre-D", "pre-P", "star-D", "star-P"]
 CHAIN_SHAPES = ["D-P-T", "P-D-T", "self-D", "star2-same", "star2-diff", "star2-diffP", "star2-deep", "pre-chain"]
 ODD_SHAPES = ["missing", "star-nopfx", "star-emptypfx"]
-SUB_SHAPES = ["star-sub", "star-sub2", "sub-styles"]
+SUB_SHAPES = ["star-sub", "star-sub2", "sub-styles", "redeclare", "redeclare2"]
 
 
 def random_validators(rng, nops):
